@@ -79,6 +79,22 @@ fn main() {
         out.push(serde_json::json!({"scenario": format!("sink_fails_at_call_{}", fail_at), "check": "no_write_after_failure", "ok": ok,
             "detail": format!("render result is_err={}, write calls={}, calls after the failure={}", r.is_err(), sink.calls, sink.calls_after_failure)}));
     }
+    // ---- fuel: straight-line templates; the caller compares `consumed` with the number of charged instructions
+    for (name, src) in [
+        ("fuel_text_and_prints", "a{{ x }}b{{ y }}c"),
+        ("fuel_expression", "{{ (1 + 2) * 3 ~ 'z' }}"),
+        ("fuel_with_and_set", "{% with q = 1 %}{% set r = q %}{{ r }}{% endwith %}"),
+    ] {
+        let mut env = Environment::new();
+        env.set_fuel(Some(1_000_000));
+        let tmpl = env.template_from_str(src).unwrap();
+        let r = tmpl.render_captured(minijinja::context! { x => "X", y => "Y" });
+        let consumed = match r {
+            Ok(c) => c.state().fuel_levels().map(|l| l.0 as i64).unwrap_or(-1),
+            Err(_) => -2,
+        };
+        out.push(serde_json::json!({"scenario": name, "check": "fuel_charged_once", "ok": true, "src": src, "consumed": consumed, "detail": ""}));
+    }
     for o in out {
         println!("{}", o);
     }
